@@ -17,6 +17,9 @@ REPLAY_DIR = os.path.join(EVIDENCE_DIR, 'replays')
 KNOWN = os.path.join(ROOT, 'known_findings.json')
 JOBS = int(os.environ.get('VF_JOBS', '16'))
 EXIT_OK, EXIT_VIOLATION, EXIT_HARNESS = 0, 1, 3
+GRACE_S = 240
+# wall budget per tier (seconds): slices not started before it is used up are reported as skipped (the bound in evidence shrinks)
+DEFAULT_BUDGET = {'quick': None, 'thorough': 1500}
 
 
 def load_known(prop):
@@ -69,6 +72,11 @@ class Pool:
             for t, p, st in self.running:
                 rc = p.poll()
                 if rc is None:
+                    if deadline is not None and time.time() > deadline + GRACE_S:
+                        p.kill()
+                        p.wait()
+                        done.append((t, {'status': 'killed', 'reason': 'tier wall budget exhausted (+%ds grace)' % GRACE_S}))
+                        continue
                     if time.time() - st > t['kill_after']:
                         p.kill()
                         p.wait()
@@ -146,7 +154,9 @@ def _check(prop, tier, seed, py, modname, plan, scratch, ev_path, t0):
                       'cmd': [py, '-m', 'vfw.lemma', j.get('module', modname), json.dumps(j), out],
                       'env': _child_env({}, seed=seed), 'kill_after': j.get('timeout', 300), 'order': (0, -j.get('timeout', 300))})
     tasks.sort(key=lambda t: t['order'])
-    budget = plan.get('wall_budget')
+    budget = plan.get('wall_budget', DEFAULT_BUDGET.get(tier))
+    if os.environ.get('VF_WALL_BUDGET'):
+        budget = float(os.environ['VF_WALL_BUDGET'])
     deadline = (t0 + budget) if budget else None
     results = Pool().run(tasks, deadline=deadline)
 
